@@ -27,15 +27,13 @@ CLAIM = {
 FINDINGS = [
     ("KF-C11-base64-panic", ("b64pad",), lambda k, a, b, f: k == "panic-opt"),
     ("KF-C11-utf8-panic", ("badutf8",), lambda k, a, b, f: k == "panic-opt"),
-    ("KF-C11-jit-malformed-accepted", ("arrcomma", "unterm32"), lambda k, a, b, f: k == "malformed" and a == "O" and b != "O" and f != "O"),
+    ("KF-C11-jit-malformed-accepted", ("unterm32",), lambda k, a, b, f: k == "malformed" and a == "O" and b != "O" and f != "O"),
     ("KF-C11-float-inf", ("floatinf",), lambda k, a, b, f: k == "jo-err" and b == "E"),
     ("KF-C11-bytes-array", ("bytesarr",), lambda k, a, b, f: k == "jo-err" and a == "O" and b == "E"),
     ("KF-C11-number-in-string", ("intkey", "qnum", "numstr", "qbool"), lambda k, a, b, f: k == "jo-err" and a == "E" and b == "O"),
     ("KF-C11-jit-quoted-string-inner", ("qesc",), lambda k, a, b, f: k == "jo-err" and a == "O" and b == "E"),
-    ("KF-C11-slice-null-element", ("slicenull",), lambda k, a, b, f: k == "jo-err" and a == "O" and b == "E"),
     ("KF-C11-raw-number-trailing-space", ("rawnumws",), lambda k, a, b, f: k == "jo-val"),
     ("KF-C11-unsigned-minus-zero", ("uneg0",), lambda k, a, b, f: k == "jo-err" and a == "E" and b == "O"),
-    ("KF-C11-mapstrstr-null", ("mapstrnull",), lambda k, a, b, f: k == "jo-err" and a == "O" and b == "E"),
     ("KF-C11-usenumber-bad-number", ("badnum",), lambda k, a, b, f: k == "malformed" and a == "E"),
     ("KF-C11-embptr-null", ("embptrnull",), lambda k, a, b, f: k == "jo-val"),
     ("KF-C11-slice-grow", ("slicestale",), lambda k, a, b, f: k == "jo-val"),
